@@ -144,6 +144,8 @@ struct GStore {
     rating_mode: RatingMode,
     used_ratings: Vec<usize>,
     limit: usize,
+    /// record ids are the caller's: in some runs they collide (drawn from 0..4)
+    dup_ids: bool,
 }
 
 fn pick_lang(rng: &mut Rng) -> String {
@@ -242,7 +244,8 @@ impl GStore {
         self.next_id += 1 + rng.below(3);
         let rating = self.rating(rng);
         self.held.push(title.clone());
-        Op::Add { s: self.s, id: self.next_id, title, rating }
+        let id = if self.dup_ids { rng.below(4) } else { self.next_id };
+        Op::Add { s: self.s, id, title, rating }
     }
 
     fn query(&self, rng: &mut Rng, others: &[String]) -> String {
@@ -399,7 +402,8 @@ fn gen_hist(prop: &str, rng: &mut Rng) -> (Config, Vec<Op>) {
             "C01" => *rng.pick(&[RatingMode::Distinct, RatingMode::FewValues, RatingMode::Random, RatingMode::AllEqual]),
             _ => *rng.pick(&[RatingMode::Distinct, RatingMode::FewValues, RatingMode::Random, RatingMode::AllEqual, RatingMode::Distinct, RatingMode::FewValues, RatingMode::Random, RatingMode::Huge]),
         };
-        let mut g = GStore { s, lang: lang.clone(), thread, held: Vec::new(), pool: make_pool(rng, &lang, pool_size), next_id: 0, rating_mode, used_ratings: Vec::new(), limit: 10 };
+        let mut g = GStore { s, lang: lang.clone(), thread, held: Vec::new(), pool: make_pool(rng, &lang, pool_size), next_id: 0, rating_mode, used_ratings: Vec::new(), limit: 10, dup_ids: false };
+        g.dup_ids = big == 0 && n0 <= 60 && matches!(prop, "C06" | "C10" | "C01" | "C19") && rng.chance(1, 8);
         ops.push(Op::Create { s, t: thread, lang });
         if rng.chance(1, 3) {
             let (l, r) = *rng.pick(corpus::MARKERS);
@@ -581,7 +585,7 @@ fn gen_registry(_prop: &str, rng: &mut Rng) -> (Config, Vec<Op>) {
             let lang = pick_lang(rng);
             let pool_size = rng.range(2, 12);
             let pool = make_pool(rng, &lang, pool_size);
-            C { live: false, g: GStore { s: i, lang, thread: t, held: Vec::new(), pool, next_id: 0, rating_mode: *rng.pick(&[RatingMode::Distinct, RatingMode::FewValues, RatingMode::Random]), used_ratings: Vec::new(), limit: 10 } }
+            C { live: false, g: GStore { s: i, lang, thread: t, held: Vec::new(), pool, next_id: 0, rating_mode: *rng.pick(&[RatingMode::Distinct, RatingMode::FewValues, RatingMode::Random]), used_ratings: Vec::new(), limit: 10, dup_ids: false } }
         })
         .collect();
     let len = if deep() { rng.range(150, 600) } else if rng.chance(1, 2) { rng.range(10, 30) } else { rng.range(31, 150) };
@@ -731,6 +735,23 @@ fn gen_replica(_prop: &str, rng: &mut Rng) -> (Config, Vec<Op>) {
             ops.push(Op::Migrate { s, t });
         }
     }
+    // crash and restart: a replica loses everything (clear) and is fed the whole message set again,
+    // in yet another order; what it held before must not show through
+    if rng.chance(1, 5) {
+        for s in 0..replicas {
+            if rng.chance(1, 2) {
+                if rng.chance(1, 2) {
+                    ops.push(Op::Search { s, q: separator_query(rng), deep: false });
+                }
+                ops.push(Op::Clear { s });
+                let mut again = msgs.clone();
+                rng.shuffle(&mut again);
+                for (id, title, rating) in again {
+                    ops.push(Op::Add { s, id, title, rating });
+                }
+            }
+        }
+    }
     // the compared searches come after delivery has completed
     let titles: Vec<String> = msgs.iter().map(|m| m.1.clone()).collect();
     for _ in 0..rng.range(1, 6) {
@@ -805,7 +826,10 @@ fn gen_scratch(_prop: &str, rng: &mut Rng, run: u64) -> (Config, Vec<Op>) {
     for _ in 0..clients {
         let t = rng.below(threads);
         let n = if deep() { rng.range(40, 120) } else if rng.chance(1, 2) { rng.range(2, 8) } else { rng.range(9, 40) };
-        let long_max = if deep() { 250 } else { 70 };
+        // one client in 40 (one in 8 in deep runs) uses words of 600..1300 characters
+        let huge = if deep() { rng.chance(1, 8) } else { rng.chance(1, 40) };
+        let n = if huge { n.min(8) } else { n };
+        let long_max = if huge { 1300 } else if deep() { 250 } else { 70 };
         let mut plan = Vec::new();
         for k in 0..n {
             // lengths alternate short and long so that growth, re-init and shrink-after-grow occur
@@ -815,7 +839,7 @@ fn gen_scratch(_prop: &str, rng: &mut Rng, run: u64) -> (Config, Vec<Op>) {
             } else {
                 *rng.pick(&["aebc1_", "aebc1_", "ab", "abcdefghijklmnop", "aeiou", "bcdfg", "a1_", "аеёбв", "abcdefghijklmnopqrstuvwxyz", "abcdefghijklmnopqrstuvwxyz0123456789äöüßабвгдеёжзийклмнопрстуфхцчшщ"])
             };
-            let a = if long { synth_word(rng, alph, 15, long_max) } else { synth_word(rng, alph, 0, 4) };
+            let a = if long && huge { synth_word(rng, alph, 600, long_max) } else if long { synth_word(rng, alph, 15, long_max) } else if huge { synth_word(rng, alph, 21, 120) } else { synth_word(rng, alph, 0, 4) };
             let b = match rng.below(8) {
                 6 => {
                     // a prefix or a suffix of the first word
